@@ -12,7 +12,7 @@
    record is unowned - so no owned record covers them. *)
 From Coq Require Import List Arith ZArith Lia Bool.
 Import ListNotations.
-From GV Require Import Sched Events RcuModel RcuBase RcuListProofs RcuLogProofs.
+From GV Require Import Sched Events RcuModel RcuBase RcuListProofs RcuRawProofs RcuLogProofs.
 Local Open Scope nat_scope.
 
 Definition erasing_node (g : glob) (p : pc) : option nat :=
@@ -720,6 +720,27 @@ Proof.
   - intros x Hx. unfold inlog, znd, zown. rewrite F11, cs_of_destroy, grec_destroy.
     destruct (Nat.eqb_spec x n) as [->|]; [rewrite Hc; split; [split; intros [A _]; split; auto; discriminate|tauto]|tauto].
 Qed.
+Lemma sameV_alloc_raw g : (forall z, In z (zlog g) -> z < nheap g) -> sameV g (fst (do_alloc g BRaw)) None.
+Proof.
+  intros Hlt.
+  constructor; try reflexivity.
+  - intros k _. unfold nx. rewrite gnode_alloc_raw. reflexivity.
+  - intros k. unfold dl. rewrite gnode_alloc_raw. auto.
+  - intros k Hk. rewrite isnode_alloc. destruct (Nat.eqb_spec k (nheap g)) as [->|]; [apply isnode_lt in Hk; lia|exact Hk].
+  - intros k Hk _. rewrite cs_of_alloc. destruct (Nat.eqb_spec k (nheap g)) as [->|]; [apply isnode_lt in Hk; lia|reflexivity].
+  - intros z Hz. specialize (Hlt z Hz). unfold inlog, znd, zown, grec. change (zlog (fst (do_alloc g BRaw))) with (zlog g).
+    rewrite cs_of_alloc, getc_alloc. destruct (Nat.eqb_spec z (nheap g)) as [->|]; [lia|tauto].
+Qed.
+Lemma sameV_dealloc_raw g n : (forall z, In z (zlog g) -> isrec g z = true) -> sameV g (fst (do_dealloc_raw g n)) None.
+Proof.
+  intros Hr. destruct (dealloc_raw_fields g n) as (F1 & F2 & F3 & F4 & F5 & F6 & F7 & F8 & F9 & F10 & F11 & F12).
+  constructor; auto.
+  - intros j _. unfold nx. rewrite gnode_dealloc_raw. reflexivity.
+  - intros j. unfold dl. rewrite gnode_dealloc_raw. auto.
+  - intros j Hj. rewrite isnode_dealloc_raw. exact Hj.
+  - intros j Hj _. apply cs_of_dealloc_raw. left. exact Hj.
+  - intros x Hx. unfold inlog, znd, zown. rewrite F11, grec_dealloc_raw, cs_of_dealloc_raw by (right; apply Hr; exact Hx). tauto.
+Qed.
 Lemma sameV_null g k : sameV g (fst (null_call g k)) None.
 Proof. cbn. apply sameV_fault, sameV_refl. Qed.
 
@@ -1249,7 +1270,7 @@ Proof.
     | unfold thrC; cbn [at_]; exact I ]).
   all: try (
     match type of Hl with nth_error _ _ = Some {| prog := _; at_ := ?pp; hnd := _; its := _ |} =>
-      match pp with P_unlock => idtac | E_unlock _ _ => idtac end end;
+      match pp with P_unlock => idtac | E_unlock _ _ => idtac | PX_unl => idtac end end;
     match goal with |- InvC ?gg (upd _ _ ?ll) =>
       assert (SV : sameV g gg None) by (apply sameV_mtx, sameV_refl);
       destruct (hpc_holder g ls t _ IA Hl eq_refl) as [Hp1 Hm];
@@ -1273,6 +1294,8 @@ Proof.
          repeat first [apply sameV_fault | apply sameV_pos | apply sameV_tail];
          first [ apply sameV_refl
                | apply sameV_alloc; [intros z1 H1; apply (zlog_lt _ ls z1 IB H1)|first [left; reflexivity|right; eexists; reflexivity]]
+               | apply sameV_alloc_raw; intros z1 H1; apply (zlog_lt _ ls z1 IB H1)
+               | apply sameV_dealloc_raw; apply (b_rec _ _ IB)
                | apply sameV_construct_rec; tauto
                | apply sameV_setz_priv; tauto
                | (apply sameV_setn; [apply (wtarget_isnode g ls t _ _ IA Hl); reflexivity|right; reflexivity|cbn; auto])
@@ -1441,11 +1464,17 @@ Proof.
   apply cs_is_iff in H. rewrite H in F12. rewrite F12, orb_false_r. auto.
 Qed.
 
+Lemma fault_dealloc_raw g k : rawok g k = true ->
+  fault (fst (do_dealloc_raw g k)) = fault g /\ unfixed (fst (do_dealloc_raw g k)) = unfixed g.
+Proof.
+  intros H. destruct (dealloc_raw_fields g k) as (_ & _ & _ & _ & _ & F & _ & _ & _ & _ & _ & F12).
+  rewrite H in F12. rewrite F12, orb_false_r. auto.
+Qed.
 Lemma step_no_fault g ls t c l g' l' es :
-  Inv3 g ls -> unfixed g = false -> nth_error ls t = Some l -> tstep t c g l = Some (g', l', es) ->
+  Inv3 g ls -> InvX g ls -> unfixed g = false -> nth_error ls t = Some l -> tstep t c g l = Some (g', l', es) ->
   fault g' = fault g /\ unfixed g' = unfixed g.
 Proof.
-  intros (IA & IB & IC) Hu Hl Hs.
+  intros (IA & IB & IC) IX Hu Hl Hs.
   pose proof (b_thr _ _ IB t l Hl) as Tt. pose proof (c_thr _ _ IC t l Hl) as Tc.
   pose proof (log_ledger_ok g ls t l (conj IA IB) Hl) as Tl.
   destruct l as [pr p h its0]. destruct p; step_cases2 Hs; fold_fst; cbn [at_] in *.
@@ -1464,20 +1493,29 @@ Proof.
   all: try (split; [etransitivity; [|apply modc_fields]; reflexivity|etransitivity; [|apply modc_fields]; reflexivity]).
   all: try (apply fault_destroy; apply (dd_constr g ls t _ n n0 IA IB IC Hl eq_refl)).
   all: try (apply fault_dealloc; unfold thrC in Tc; exact Tc).
+  all: try (apply fault_dealloc_raw; apply (IX t _ n Hl); reflexivity).
 Qed.
 
 Definition Inv4 (g : glob) (ls : list loc) : Prop := Inv3 g ls /\ unfixed g = false /\ fault g = false.
 Lemma Inv4_step g ls t c l g' l' es :
-  Inv4 g ls -> nth_error ls t = Some l -> tstep t c g l = Some (g', l', es) -> Inv4 g' (upd ls t l').
+  Inv4 g ls -> InvX g ls -> nth_error ls t = Some l -> tstep t c g l = Some (g', l', es) -> Inv4 g' (upd ls t l').
 Proof.
-  intros (I3 & Hu & Hf) Hl Hs. destruct (step_no_fault g ls t c l g' l' es I3 Hu Hl Hs) as [A B].
+  intros (I3 & Hu & Hf) IX Hl Hs. destruct (step_no_fault g ls t c l g' l' es I3 IX Hu Hl Hs) as [A B].
   split; [eapply Inv3_step; eauto|split; congruence].
 Qed.
-Lemma R_Inv4 progs s : R false progs s -> Inv4 (gl s) (thr s).
+Definition Inv4x (g : glob) (ls : list loc) : Prop := Inv4 g ls /\ InvR g ls.
+Lemma Inv4x_step g ls t c l g' l' es :
+  Inv4x g ls -> nth_error ls t = Some l -> tstep t c g l = Some (g', l', es) -> Inv4x g' (upd ls t l').
 Proof.
-  intros H. eapply reachable_inv; [apply Inv4_step| |exact H].
-  split; [split; [apply InvA_init|split; [apply InvB_init|apply InvC_init]]|split; reflexivity].
+  intros [I4 IR] Hl Hs. split; [eapply Inv4_step; eauto; apply InvR_X; exact IR|]. destruct I4 as ((IA & _) & _). eapply InvR_step; eauto.
 Qed.
+Lemma R_Inv4x progs s : R false progs s -> Inv4x (gl s) (thr s).
+Proof.
+  intros H. eapply reachable_inv; [apply Inv4x_step| |exact H].
+  split; [split; [split; [apply InvA_init|split; [apply InvB_init|apply InvC_init]]|split; reflexivity]|apply InvR_init].
+Qed.
+Lemma R_Inv4 progs s : R false progs s -> Inv4 (gl s) (thr s).
+Proof. intros H. apply (R_Inv4x _ _ H). Qed.
 
 (* C05 / C13: for the repaired source, no program and no schedule ever reaches a fault: no access to a
    cell that is not alive, no illegal allocator call *)
